@@ -7,6 +7,9 @@
 #define CAT_VERIF_LEAF_CONTRACTS_H
 #include "spec.h"
 #include "cat.h"
+#ifndef X_TOKMAX
+#define X_TOKMAX 32
+#endif
 
 #define OLD(x) __CPROVER_old(x)
 #define RET    __CPROVER_return_value
@@ -304,6 +307,21 @@ __CPROVER_assigns(g_pfx, g_oldtext; FMT_ASSIGNS)
 /* [C07:fs-quotes]       */ __CPROVER_ensures(RET == 0 ==> (NPOS >= OPOS + 2 && NPOS < CAPF(self, fsm) && FB[NPOS] == 0 && FB[NPOS - 1] == '"' && (g_k == OPOS ==> FB[g_k] == '"')))
 /* [C08:fs-write-only]   */ __CPROVER_ensures((RET == 0 && WO(VF)) ==> NPOS == OPOS + 2)
 /* [C07:fs-prefix]       */ __CPROVER_ensures(PREFIX1_KEPT)
+;
+
+/* TEST-response token of one variable: g_exp / g_explen are computed by the harness with the text-level specification
+ * (contracts/spec_text.h, x_token) before the call; g_explen == (size_t)-1 when the statement defines no token */
+static char g_exp[X_TOKMAX + 1];
+static size_t g_explen;
+static int format_info_type(struct cat_object *self, cat_fsm_type fsm)
+__CPROVER_requires(FMT_PRE(self, fsm) && VARF(self, fsm)->data_size >= 1 && VARF(self, fsm)->data_size <= 64 && VARF(self, fsm)->access >= CAT_VAR_ACCESS_READ_WRITE && VARF(self, fsm)->access <= CAT_VAR_ACCESS_WRITE_ONLY)
+__CPROVER_requires(PREFIX_PRE)
+__CPROVER_assigns(FMT_ASSIGNS)
+/* [C19:tok-retcode]     */ __CPROVER_ensures(RET == 0 || RET == -1)
+/* [C19:tok-refuse]      */ __CPROVER_ensures((RET == -1) == (g_explen == (size_t)-1 || g_explen >= CAPF(self, fsm) - OPOS))
+/* [C19:tok-length]      */ __CPROVER_ensures(RET == 0 ==> (NPOS == OPOS + g_explen && NPOS < CAPF(self, fsm) && FB[NPOS] == 0))
+/* [C19:tok-text]        */ __CPROVER_ensures((RET == 0 && OPOS <= g_k && g_k < NPOS && g_k - OPOS < X_TOKMAX) ==> FB[g_k] == (uint8_t)g_exp[g_k - OPOS])
+/* [C19:tok-prefix]      */ __CPROVER_ensures(PREFIX_KEPT)
 ;
 
 #endif
